@@ -137,6 +137,12 @@ def execute(ex: Execution, family: str, mode: str, via_handler: bool = False) ->
         if via_handler:
             w["cancel_via"] = "handler.cancel_run(timeout=0)"
         pub = h.published
+        if out[0] != "pending" and isinstance(out[1], (WorkflowTimeoutError, WorkflowCancelledByUser)):
+            # the run has ended by timeout / cancellation: it "stops cleanly" - no step body of it is still executing
+            still = sorted(n for n, lst in h.live.items() if lst)
+            if still:
+                v.append(("step_still_executing_after_the_run_ended", {**w, "outcome": type(out[1]).__name__},
+                          f"the run ended with {type(out[1]).__name__} but bodies of {still} are still live (trace {h.trace})"))
         if out[0] == "pending" and mode == "cancel_resume_timeout_hang":
             pass  # the steps blocked before the cancel request was made: nothing to resume (covered by timeout_hang)
         elif out[0] == "pending":
